@@ -4,6 +4,7 @@ package kcp
 
 import (
 	"fmt"
+	"sort"
 	"testing"
 )
 
@@ -265,6 +266,221 @@ func runCleanPath(lg *vlog, rep *vreport, c cleanCfg) bool {
 	return true
 }
 
+// runSlowLink: the clean path of C18 over a link on which the output callback BLOCKS for the
+// serialisation time of the datagram (a serial line, a rate-limited or blocking socket): a flush
+// of a burst then lasts many milliseconds.  Time passing inside a call is outside the op
+// vocabulary of the model (its flush sees one clock value), so these cases are monitors only: no
+// op log, no model replay.  The path loses, duplicates and reorders nothing; the peer (another
+// machine) keeps working while the sender is blocked; the sender's driver reads what has arrived
+// before it flushes again.  Premise, in the sender's own terms: every acknowledgement reaches
+// Input less than the minimum RTO after its segment was handed to the link - the path's round
+// trip 2D + the peer's acknowledgement delay stays below the minimum RTO, and so does the
+// longest time the sender is blocked in one flush (a sender stalled longer than its RTO cannot
+// read the acknowledgements in time, whatever the path).  Every data segment goes on the wire
+// exactly once: the retransmission timer of a segment runs from the moment IT is transmitted,
+// not from the start of the flush that transmits it.
+func runSlowLink(rep *vreport, rng *vrng, id int) bool {
+	nodelay := rng.intn(2)
+	minrto := IKCP_RTO_MIN
+	if nodelay != 0 {
+		minrto = IKCP_RTO_NDL
+	}
+	tx := 1 + rng.intn(3) // ms per datagram
+	iv := rng.pick(10, 20)
+	acknd := rng.chance(50)
+	ackDelay := 0
+	if !acknd {
+		ackDelay = iv
+	}
+	room := minrto - 2*tx - 6 - ackDelay
+	nmax := min(30, (minrto-2*tx-8)/tx) // the longest flush stays below the minimum RTO
+	if room < 2 || nmax < 4 {
+		return false
+	}
+	D := uint32(room/2 - rng.intn(min(3, room/2)))
+	resend, nc := rng.pick(0, 2), rng.intn(2)
+	clock := uint32(0xffffffff) - uint32(rng.intn(3000))
+	replay := map[string]any{"test": "TestVerifC18/slow-link", "seed": vSeed(), "case": id, "nodelay": nodelay, "tx_ms_per_datagram": tx,
+		"interval": iv, "ack_nodelay": acknd, "one_way_delay": D, "resend": resend, "nc": nc, "clock": clock, "max_burst": nmax}
+
+	type event struct {
+		at    uint32
+		seq   int
+		side  int
+		fn    func()
+		input bool
+	}
+	var queue []event
+	seq := 0
+	vnow, bnow := clock, clock // A's time (A may be blocked in its callback), B's time
+	schedule := func(side int, at uint32, fn func()) {
+		seq++
+		queue = append(queue, event{at, seq, side, fn, false})
+	}
+	scheduleInput := func(at uint32, fn func()) {
+		seq++
+		queue = append(queue, event{at, seq, 0, fn, true})
+	}
+	// the sender's driver reads every datagram that has arrived before it flushes again (after a
+	// flush that blocked, the socket is drained first, then the overdue timer runs)
+	popArrived := func() (event, bool) {
+		best := -1
+		for i, ev := range queue {
+			if ev.input && int32(ev.at-vnow) <= 0 && (best < 0 || int32(ev.at-queue[best].at) < 0 || (ev.at == queue[best].at && ev.seq < queue[best].seq)) {
+				best = i
+			}
+		}
+		if best < 0 {
+			return event{}, false
+		}
+		ev := queue[best]
+		queue = append(queue[:best], queue[best+1:]...)
+		return ev, true
+	}
+	pop := func(side int, limit uint32, bounded bool) (event, bool) {
+		best := -1
+		for i, ev := range queue {
+			if side >= 0 && ev.side != side {
+				continue
+			}
+			if bounded && int32(ev.at-limit) > 0 {
+				continue
+			}
+			if best < 0 || int32(ev.at-queue[best].at) < 0 || (ev.at == queue[best].at && ev.seq < queue[best].seq) {
+				best = i
+			}
+		}
+		if best < 0 {
+			return event{}, false
+		}
+		ev := queue[best]
+		queue = append(queue[:best], queue[best+1:]...)
+		return ev, true
+	}
+	runB := func(ev event) {
+		if int32(ev.at-bnow) > 0 {
+			bnow = ev.at
+		}
+		setClock(bnow)
+		ev.fn()
+		setClock(vnow)
+	}
+	var a, b *KCP
+	xmits := map[uint32]int{}
+	delivered, panicked := 0, ""
+	rbuf := make([]byte, 70000)
+	a = NewKCP(77, func(buf []byte, size int) {
+		pkt := append([]byte(nil), buf[:size]...)
+		if segs, ok := parseWire(pkt); ok {
+			for _, w := range segs {
+				if w.cmd == IKCP_CMD_PUSH {
+					xmits[w.sn]++
+				}
+			}
+		}
+		vnow += uint32(tx) // the write blocks
+		setClock(vnow)
+		schedule(1, vnow+D, func() {
+			b.Input(pkt, IKCP_PACKET_REGULAR, acknd)
+			for b.Recv(rbuf) >= 0 {
+				delivered++
+			}
+		})
+		for { // the peer does not wait for us
+			ev, ok := pop(1, vnow, true)
+			if !ok {
+				break
+			}
+			runB(ev)
+		}
+	})
+	b = NewKCP(77, func(buf []byte, size int) {
+		pkt := append([]byte(nil), buf[:size]...)
+		scheduleInput(bnow+D, func() {
+			a.Input(pkt, IKCP_PACKET_REGULAR, false)
+			rep.Monitors["rto-bounds"]++
+			if a.rx_rto < uint32(minrto) || a.rx_rto > IKCP_RTO_MAX {
+				rep.violate("core-rto-out-of-bounds", fmt.Sprintf("slow link: rx_rto=%d outside [%d, 60000]", a.rx_rto, minrto), replay)
+			}
+		})
+	})
+	for _, k := range []*KCP{a, b} {
+		k.snd_una, k.snd_nxt, k.rcv_nxt = 0xfffffff8, 0xfffffff8, 0xfffffff8
+		k.NoDelay(nodelay, iv, resend, nc)
+	}
+	var tickA, tickB func()
+	tickA = func() { a.flush(IKCP_FLUSH_FULL); schedule(0, vnow+uint32(iv), tickA) }
+	tickB = func() { b.flush(IKCP_FLUSH_FULL); schedule(1, bnow+uint32(iv), tickB) }
+	schedule(0, vnow, tickA)
+	schedule(1, bnow+uint32(rng.intn(iv)), tickB)
+	// writes: a warm-up of single small messages, then bursts of full-size messages flushed at once
+	at := vnow
+	nmsg := 0
+	for i := 0; i < 12; i++ {
+		at += 150
+		schedule(0, at, func() { a.Send(make([]byte, 100)); a.flush(IKCP_FLUSH_FULL) })
+		nmsg++
+	}
+	for i := 0; i < 3; i++ {
+		at += 700
+		n := nmax - rng.intn(min(4, nmax-3)) // < the 32 segments a sender assumes / the default windows
+		schedule(0, at, func() {
+			for j := 0; j < n; j++ {
+				a.Send(make([]byte, a.mss))
+			}
+			a.flush(IKCP_FLUSH_FULL)
+		})
+		nmsg += n
+	}
+	end := at + 3000
+	func() {
+		defer func() {
+			if r := recover(); r != nil {
+				panicked = fmt.Sprint(r)
+			}
+		}()
+		for {
+			ev, ok := popArrived()
+			if !ok {
+				ev, ok = pop(-1, 0, false)
+			}
+			if !ok || int32(ev.at-end) > 0 {
+				break
+			}
+			if ev.side == 1 {
+				runB(ev)
+			} else {
+				if int32(ev.at-vnow) > 0 {
+					vnow = ev.at
+				}
+				setClock(vnow)
+				ev.fn()
+			}
+		}
+	}()
+	rep.Monitors["clean-path-once"]++
+	rep.Distribution["profile:clean-path-slow-link"]++
+	if panicked != "" {
+		rep.violate("core-panic", "slow link: "+panicked, replay)
+		return true
+	}
+	if delivered < nmsg {
+		rep.violate("core-clean-path-stalled", fmt.Sprintf("slow link (%d ms per datagram, D=%d ms): only %d of %d messages arrived", tx, D, delivered, nmsg), replay)
+	}
+	var dups []uint32
+	for sn, n := range xmits {
+		if n != 1 {
+			dups = append(dups, sn)
+		}
+	}
+	if len(dups) > 0 {
+		sort.Slice(dups, func(i, j int) bool { return dups[i] < dups[j] })
+		rep.violate("core-clean-path-retransmit", fmt.Sprintf("clean path over a slow link (the output callback blocks %d ms per datagram; D=%d ms, peer acknowledgement delay %d ms, minimum RTO %d ms, nodelay=%d resend=%d nc=%d): %d data segments were transmitted more than once, first sn=%d (%d times)",
+			tx, D, ackDelay, minrto, nodelay, resend, nc, len(dups), dups[0], xmits[dups[0]]), replay)
+	}
+	return true
+}
+
 func TestVerifC18(t *testing.T) {
 	runCoreSuite(t, coreSuite{
 		prop: "C18", mon: coreMon{rto: true}, nQuick: 150, nThor: 2000,
@@ -293,6 +509,12 @@ func TestVerifC18(t *testing.T) {
 				if runCleanPath(lg, rep, c) {
 					n++
 					rep.Distribution["profile:clean-path"]++
+					rep.Nontrivial++
+				}
+			}
+			for i := 0; i < want; i++ {
+				if runSlowLink(rep, rng, i) {
+					n++
 					rep.Nontrivial++
 				}
 			}
